@@ -9,7 +9,7 @@ ID = 'C17'
 RULE = ('tables (exhaustive): every key of the decoder table of a fresh TracesParser and of each of the seven family '
         'tables is checked against an independent reader of the bundled trace.codes (name present, under an id with '
         'qualifier bits clear; also through the tool\'s own default table after a caller edited the mapping it was handed earlier), the families are pairwise disjoint, every X_nocancel has its X. twins (generated): for '
-        'every pair, in-domain START/END tuples (error zero / errno / unknown), 0..2 lookups (a third of them paths containing the call\'s own name): the two renderings '
+        'every pair, in-domain START/END tuples (error zero / errno / unknown), 0..2 lookups (a third of them paths containing the call\'s own name; a third of the cases on process tables that know the pids the call\'s words name): the two renderings '
         'are identical after removing the single "_nocancel" that follows the call name (every third case after another '
         'parser object, built on a table lacking both names, has seen the same ids and must decode nothing). Non-trivial: twin case with '
         'a non-zero error or >= 1 lookup; each table entry counts once; distinct by (pair, tuples).')
@@ -92,14 +92,22 @@ def prop_twin(ctx, case):
         leaked = [str(t) for t in guard(lambda: list(other.feed_generator(EV.realize(stream))))]
         if leaked:
             raise Violation(f'decoded-without-table-entry:{nc}', f'a table without {base}/{nc} still decodes them: {leaked}')
-    t_nc = guard(render, nc, a, e, lookups)
-    t_base = guard(render, base, a, e, lookups)
+    tables = None
+    if (seed >> 4) % 3 == 0:
+        # the words of the call happen to name processes and threads the dump has declared (a returned pid, a target pid)
+        known = [4242, 77, 1]
+        e = [e[0], known[seed % 3]] + e[2:]
+        d2 = domains.project(base, 1, [known[(seed >> 1) % 3]] + a[1:])
+        a = [int.from_bytes(d2[8 * i:8 * i + 8], 'little') for i in range(4)]
+        tables = ({0x33: 77, 0x34: 4242, 4242: 1}, {4242: 'child', 77: 'self', 1: 'launchd'})
+    t_nc = guard(render, nc, a, e, lookups, tables=tables)
+    t_base = guard(render, base, a, e, lookups, tables=tables)
     if t_nc.count('_nocancel(') != 1 or not t_nc.split('(')[0].endswith('_nocancel'):
         raise Violation(f'suffix:{nc}', f'{nc} renders as {t_nc!r}')
     if t_nc.replace('_nocancel', '', 1) != t_base:
         raise Violation(f'twins-differ:{nc}', f'{base}: {t_base!r}  vs  {nc}: {t_nc!r}')
     ctx.note([nc, a, e[:2], nlook, lookups[:1]], nontrivial=bool(err) or nlook > 0, classes=['twin', 'error' if err else 'success', f'lookups:{nlook}',
-                                                                                             *(['path-contains-call-name'] if nlook and (seed >> 2) % 3 == 0 else [])])
+                                                                                             *(['path-contains-call-name'] if nlook and (seed >> 2) % 3 == 0 else []), *(['words-name-known-processes'] if tables else [])])
 
 
 PROPS = {'table': prop_table, 'twin': prop_twin}
